@@ -159,6 +159,17 @@ func parseArgsWithExpiration(args map[string]any, defaultHandler func(name strin
 func fnGetEx(ctx *cmdContext, args map[string]any) (output respValue, err error) {
 	keyName := args["key"].(string)
 
+	hasOption := false
+	for name := range args {
+		if strings.HasPrefix(name, "expiration.") {
+			hasOption = true
+		}
+	}
+	if !hasOption {
+		// without an option GETEX is GET; the expiry is not touched
+		return fnGet(ctx, args)
+	}
+
 	expiration, valid := parseArgsWithExpiration(args, nil)
 	if !valid {
 		output.data = respErrorString(fmt.Sprintf("ERR invalid expire time in '%s' command", ctx.cmdName))
